@@ -201,6 +201,23 @@ def impl(case):
             M = dense_of(mk(case["a"]).as_matrix())
             return {"n": int(round(math.log2(M.shape[0]))), "nz": nz_int(M), "shape": list(M.shape)}
         return guarded(f)
+    if op == "ps.entries":
+        def f():
+            M = mk(case["a"]).as_matrix()
+            C = M.tocoo() if hasattr(M, "tocoo") else __import__("scipy.sparse", fromlist=["x"]).coo_matrix(np.asarray(M))
+            rows, cols, vals = np.asarray(C.row, dtype=np.int64), np.asarray(C.col, dtype=np.int64), np.asarray(C.data, dtype=complex)
+            keep = vals != 0
+            rows, cols, vals = rows[keep], cols[keep], vals[keep]
+            order = np.argsort(rows, kind="stable")
+            rows, cols, vals = rows[order], cols[order], vals[order]
+            sel = sorted(set(int(r) for r in case["rows"]))
+            pairs = []
+            for r in sel:
+                lo, hi = np.searchsorted(rows, r, "left"), np.searchsorted(rows, r, "right")
+                pairs.append([r, [[int(cols[k])] + list(gauss_int(vals[k])) for k in range(lo, hi)]])
+            return {"n": int(round(math.log2(M.shape[0]))), "shape": [int(M.shape[0]), int(M.shape[1])], "nnz": int(len(rows)), "rows": pairs,
+                    "_coo": (rows, cols, vals)}
+        return guarded(f)
     if op == "ps.ctor":
         out = guarded(lambda: canon(PS(build_arr(case["z"]), build_arr(case["x"]), build_q(case["q"]))))
         if "val" in out:
@@ -271,8 +288,20 @@ def arr_json(spec):
     return conv(spec["data"])
 
 
-def model_req(case):
+def model_req(case, o=None):
     op = case["op"]
+    if op == "ps.entries":
+        # the model is asked for every entry the implementation reports in the selected rows and for the entry the definition puts there
+        n = len(case["a"]["z"])
+        xm = int("".join(str(v) for v in case["a"]["x"]) or "0", 2)
+        pairs = []
+        for r in sorted(set(int(r) for r in case["rows"])):
+            cs = {r ^ xm}
+            if o and "val" in o:
+                cs |= {e[0] for rr, es in o["val"]["rows"] if rr == r for e in es}
+            pairs += [[r, c] for c in sorted(cs) if 0 <= c < 2 ** n]
+        case["_pairs"] = pairs
+        return {"op": op, "a": case["a"], "pairs": pairs}
     if op == "ps.ctor":
         qv = case["q"]["v"]
         return {"op": op, "z": arr_json(case["z"]), "x": arr_json(case["x"]), "q": (qv if isinstance(qv, (bool, int)) else qstr(qv))}
@@ -292,6 +321,17 @@ def compare(case, o, m):
     if "raised" in o:
         return None if o["raised"] == m["raised"] else f"exception class: impl {o['raised']} != model {m['raised']}"
     a, b = o["val"], m["val"]
+    if op == "ps.entries":
+        if a["n"] != b["n"] or a["shape"] != [2 ** b["n"]] * 2:
+            return f"shape: impl {a['shape']} vs model n={b['n']}"
+        want = {}
+        for (r, c), e in zip(case["_pairs"], b["entries"]):
+            if e != [0, 0]:
+                want.setdefault(r, []).append([c] + list(e))
+        for r, es in a["rows"]:
+            if sorted(es) != sorted(want.get(r, [])):
+                return f"row {r} of the matrix: impl {es} != model {want.get(r, [])}"
+        return None
     if op == "ps.mat":
         if a["n"] != b["n"] or a["shape"] != [2 ** b["n"]] * 2:
             return f"shape: impl {a['shape']} vs model n={b['n']}"
@@ -442,6 +482,22 @@ def oracle(case, o):
             bad.append(("C09:refactor_phase:phase-left", f"new q = {new['q']}"))
         if k == "sign" and (new["q"] not in (0, 1) or f not in (1, -1)):
             bad.append(("C09:refactor_sign:not-a-sign", f"f = {f}, new q = {new['q']}"))
+        return bad
+    if op == "ps.entries":
+        if "raised" in o:
+            return [("C09:as_matrix:raised", o["raised"])]
+        n = len(case["a"]["z"])
+        if o["val"]["shape"] != [2 ** n, 2 ** n]:
+            return [("C09:as_matrix:shape", f"{o['val']['shape']} for n = {n}")]
+        rows, cols, vals = o["val"]["_coo"]
+        col, val = ref_mono(case["a"])        # every row of (-i)^q kron(letters) has exactly one non-zero entry
+        if len(rows) != 2 ** n or not np.array_equal(rows, np.arange(2 ** n)) or not np.array_equal(cols, col) or not np.array_equal(vals, val):
+            k = -1
+            if len(rows) == 2 ** n and np.array_equal(rows, np.arange(2 ** n)):
+                d = np.nonzero((cols != col) | (vals != val))[0]
+                k = int(d[0]) if len(d) else -1
+            bad.append(("C09:as_matrix:not-the-kronecker-product", f"as_matrix() != (-i)^q kron(letters) for the {n}-site string {case['a']}"
+                        + (f": row {k} has ({int(cols[k])}, {complex(vals[k])}), the definition ({int(col[k])}, {complex(val[k])})" if k >= 0 else f": {len(rows)} stored non-zeros")))
         return bad
     if op == "ps.mat":
         if "raised" in o:
@@ -827,6 +883,21 @@ def gen_cases(tier, rng):
     for _ in range(3000 if T else 400):
         n = rng.randint(4, 10)
         yield from single_ops(rand_ps(rng, n), mat=(n <= DENSE_MAX))
+    # ---- many sites: the matrix is compared as a signed permutation (all 2^n non-zeros against the definition; sampled rows against the model)
+    big = [11, 12, 13, 16, 17, 18] + ([19, 20] if T else [])
+    for n in big * (2 if T else 1):
+        for style in ("random", "lead-z", "lead-y", "tail-x"):
+            p = rand_ps(rng, n)
+            if style == "lead-z":      # a single Z / Y on one of the leading sites, identities elsewhere: the sign depends on the top bit only
+                k = rng.randrange(0, max(1, n - 8))
+                p = {"z": [int(i == k) for i in range(n)], "x": [0] * n, "q": rng.randint(0, 3)}
+            elif style == "lead-y":
+                k = rng.randrange(0, max(1, n - 8))
+                p = {"z": [int(i == k) for i in range(n)], "x": [int(i == k) for i in range(n)], "q": rng.randint(0, 3)}
+            elif style == "tail-x":
+                p = {"z": [0] * n, "x": [int(i >= n - 2) for i in range(n)], "q": rng.randint(0, 3)}
+            rows = [0, 1, 2 ** n - 1, 2 ** (n - 1), 2 ** (n - 1) - 1] + [rng.randrange(2 ** n) for _ in range(40)] + [1 << rng.randrange(n) for _ in range(8)]
+            yield {"op": "ps.entries", "a": p, "rows": rows}
     # ---- unequal lengths (rejected by NumPy)
     for _ in range(200 if T else 40):
         a, b = rand_ps(rng, rng.randint(0, 4)), rand_ps(rng, rng.randint(0, 4))
@@ -845,13 +916,13 @@ def run(rep, tier, rng, drv):
         o = impl(c)
         n = len(c["a"]["z"]) if "a" in c else None
         rep.count(c["op"] + (":raised:" + o["raised"] if "raised" in o else ":returned"))
-        if n is not None and c["op"] in ("ps.mul", "ps.mat"):
+        if n is not None and c["op"] in ("ps.mul", "ps.mat", "ps.entries"):
             rep.count(f"{c['op']}:n={n}")
         if c["op"] == "pop.history" and "val" in o:
             rep.count("pop.history:final-strings=" + str(min(len(o["val"]["strings"]), 6)))
             if o["val"]["mat"] is not None:
                 rep.count("pop.history:matrix:" + ("raised" if "raised" in o["val"]["mat"] else "zero" if o["val"]["mat"]["val"] == "zero" else "dense"))
         return o
-    run_correspondence(rep, drv, gen_cases(tier, rng), counted_impl, model_req, compare, oracle, "drv_pauli ops")
+    run_correspondence(rep, drv, gen_cases(tier, rng), counted_impl, model_req, compare, oracle, "drv_pauli ops", req_uses_output=True)
     rep.cov["exhaustive"] = {"n<=2 ordered pairs incl. phases": True, "n=3 strings": True, "n=3 ordered pairs incl. phases": tier == "thorough",
                              "n=5 strings (one-string ops)": tier == "thorough"}
